@@ -8,14 +8,23 @@ package ingress
 @*/
 /*@ immutable types/ingress.subscription.parent types/ingress.subscription.outch types/ingress.subscription.cache
   types/ingress.cache.parent types/ingress.controller.parent types/ingress.controller.cache types/ingress.filterController.filterParent
-  types/ingress.filterSubscription.filterParent
+  types/ingress.filterSubscription.filterParent types/ingress.filterController.controller
 @*/
 /*@ nonblocking-send types/ingress.subscription.outch
 @*/
 
 /*@ theory ingresstyped
 ;; theory lists wiring
-;; uses types/ingress.event
+;; uses types/ingress.event types/ingress.controller
+(declare-fun |F!types/ingress.filterController!controller| (V) |S!types/ingress.controller|)
+(assert (forall ((c V)) (! (=> (= (dyntype c) |ty!*types/ingress.filterController|)
+                               (not (= (|types/ingress.controller.parent| (|F!types/ingress.filterController!controller| c)) vnil)))
+                          :pattern ((|F!types/ingress.filterController!controller| c)))))
+(declare-fun |F!types/ingress.controller!parent| (V) V)
+; object invariant of the typed controllers (they are only built by newController / newFilterController,
+; whose precondition is a non-nil parent; the field is immutable)
+(assert (forall ((c V)) (! (=> (or (= (dyntype c) |ty!*types/ingress.controller|) (= (dyntype c) |ty!*types/ingress.filterController|))
+                               (not (= (|F!types/ingress.controller!parent| c) vnil))) :pattern ((|F!types/ingress.controller!parent| c)))))
 (define-fun isT ((o V)) Bool (and (not (= o vnil)) (= (dyntype o) |ty!*networking/v1beta1.Ingress|)))
 (declare-fun tevt-type (V) Str)
 (declare-fun tevt-res (V) V)
@@ -239,6 +248,23 @@ package ingress
   at call(Refilter) assert [refilters-the-untyped-subscription-with-the-given-filter] (and (= $recv {s.filterParent}) (= $0 {f}))
 @*/
 
+/*@ func types/ingress.NewMonitor
+  props C20 C16
+  theory ingresstyped
+  allow panic
+  note NewMonitor panics for a Publisher that is not one of this package's controllers (documented in the code)
+  requires (and (not (= {publisher} vnil)) (not (= {handler} vnil)))
+  at call(OnInitialize) assert [initialize-adapter] (= (closureOf $0) "types/ingress.NewMonitor$1")
+  at call(OnCreate) assert [create-adapter-calls-oncreate] (= (closureOf $0) "types/ingress.NewMonitor$2")
+  at call(OnUpdate) assert [update-adapter-calls-onupdate] (= (closureOf $0) "types/ingress.NewMonitor$3")
+  at call(OnDelete) assert [delete-adapter-calls-ondelete] (= (closureOf $0) "types/ingress.NewMonitor$4")
+  ensures (=> (= result1 vnil) (not (= result0 vnil)))
+@*/
+/*@ func types/ingress.BuildHandler
+  props C20
+  fresh result
+  ensures (not (= result vnil))
+@*/
 /*@ func types/ingress.NewMonitor$1
   props C20 C16
   theory ingresstyped
